@@ -13,6 +13,23 @@ pub mod nom {
         ensures r matches Ok(t) ==> t.1@.len() == 1 && input@.len() >= 1 && t.1@[0] == input@[0]
                     && t.0@ == input@.skip(1) && pred.ensures((input@[0],), true)
     { unimplemented!() }
+    // take_while1(pred)(input) / take_while(pred)(input): the longest prefix of characters satisfying pred (non-empty for take_while1)
+    pub open spec fn prefix_len<F: Fn(char) -> bool>(pred: F, s: Seq<char>) -> int
+        decreases s.len()
+    {
+        if s.len() > 0 && pred.ensures((s[0],), true) { 1 + prefix_len(pred, s.skip(1)) } else { 0 }
+    }
+    #[verifier::external_body]
+    pub fn take_while1<'a, F: Fn(char) -> bool>(pred: F, input: &'a str) -> (r: IResult<&'a str, &'a str>)
+        requires forall|c: char| pred.requires((c,))
+        ensures r matches Ok(t) ==> prefix_len(pred, input@) >= 1 && t.1@ == input@.take(prefix_len(pred, input@)) && t.0@ == input@.skip(prefix_len(pred, input@)),
+            r is Err ==> prefix_len(pred, input@) == 0
+    { unimplemented!() }
+    #[verifier::external_body]
+    pub fn take_while<'a, F: Fn(char) -> bool>(pred: F, input: &'a str) -> (r: IResult<&'a str, &'a str>)
+        requires forall|c: char| pred.requires((c,))
+        ensures r matches Ok(t) && t.1@ == input@.take(prefix_len(pred, input@)) && t.0@ == input@.skip(prefix_len(pred, input@))
+    { unimplemented!() }
     // map_res(digit1, f)(input): the longest non-empty prefix of ASCII digits, converted by f; f's error is a parse error
     pub uninterp spec fn digits_prefix_len(s: Seq<char>) -> int;
     #[verifier::external_body]
